@@ -1,0 +1,21 @@
+//go:build linux && verif
+
+package forkexec
+
+import (
+	"syscall"
+	"unsafe"
+)
+
+// VerifChildGateFd, when > 0, makes every forked child block in a one-byte read on that descriptor right before
+// setsid (verification harness only: pins "the child does not own its process group yet").
+var VerifChildGateFd int
+
+var verifGateByte byte
+
+//go:nosplit
+func verifChildGate() {
+	if VerifChildGateFd > 0 {
+		syscall.RawSyscall(syscall.SYS_READ, uintptr(VerifChildGateFd), uintptr(unsafe.Pointer(&verifGateByte)), 1)
+	}
+}
